@@ -403,7 +403,7 @@ struct Consumer : ASTConsumer {
         O["did"] = D.declId(FD);
         O["loc"] = D.fileLoc(FD->getLocation());
         O["ret"] = D.ty(FD->getReturnType());
-        O["static"] = FD->getStorageClass() == SC_Static;
+        O["static"] = FD->getStorageClass() == SC_Static || !FD->isExternallyVisible();
         O["inline"] = FD->isInlineSpecified();
         json::Array Ps;
         for (const ParmVarDecl *P : FD->parameters()) {
